@@ -64,6 +64,7 @@ A_CORPUS = [
     "pow I:2 M:30:1:-1", "pow I:-2 M:30:1:-1", "pow Q:2/3 M:30:5:0", "pow M:30:5:0 D:4000000000000000", "add M:2:3:0 I:1", "add M:1:1:0 I:1",
     "add M:1:1:1 I:1", "sub M:100:1:0 M:100:1:0", "add I:100000000000000000000 M:10:1:0", "mul Q:100000000000000000000/3 M:10:3:0",
     "div M:10:3:0 I:0", "div I:0 M:10:3:0", "pow M:10:3:0 I:0", "pow M:40:7:0 Q:-1/2",
+    "pow M:200:755285422153212130811088558886:20 Q:1/3", "pow M:2:2:0 D:c014000000000000",
 ]
 
 
@@ -108,13 +109,23 @@ def build_own(ctx):
 
 
 def prepare(ctx, obligations):
+    import time
+    t = [time.time()]
+
+    def lap(name):
+        t.append(time.time())
+        ctx.notes.append("stage %s: %.1fs" % (name, t[-1] - t[-2]))
     run_translator(ctx)
     ctx.gate(["Base", "Eval", "C45"])
     built = build_own(ctx)
+    lap("translate+coq")
     if obligations:
         ctx.prove(PROOF_MODULES, obligations)
+        lap("obligations")
     drv = ctx.build_driver("c45_driver", cfg="mpfr")
+    lap("library+driver")
     model = ctx.build_model("C45" + vlib.TAG, "C45/Extract.v", "c45_main.ml", "semodel", extra_ml=["expr_io.ml"]) if built else None
+    lap("model")
     return drv, model
 
 
@@ -310,7 +321,13 @@ def explore_arith(ctx, drv, model, cases, search=False):
         for item in oracle.split():
             nm = item.split("(")[0]
             inside = item[item.index("(") + 1:item.index(")")] if "(" in item else ""
+            ks = inside.split(",")
             key = "C45/%s:%s" % (nm, inside.replace(",", ":"))
+            if nm == "misrounded" and len(ks) == 3:
+                if ks[0] == "div" and ks[1] in ("Integer", "Rational") and ks[2] == "RealMPFR":
+                    key = "C45/rdiv-exact-dividend-double-rounding"
+                elif ks[0] == "pow" and set(ks[1:]) != {"RealMPFR"} and ks[1:] != ["RealMPFR", "Integer"]:
+                    key = "C45/pow-exact-operand-rounded-first"
             ctx.violation(key, "`%s`: %s; library result %s" % (case, item, res), {"case": case, "impl": line, "model": m})
     if not search:
         ctx.cov["samples"] += [{"case": "A " + c, "impl": l, "model": m} for c, l, m in list(zip(cases, impl, mod))[:4]]
